@@ -211,6 +211,19 @@ func (r *Rec) CopyTo(dst *Rec) {
 	dst.nIn = r.nIn
 }
 
+// EqualDirty compares two Recs that were reset alike at every address either
+// of them has had written or poked since.
+func EqualDirty(a, b *Rec) (bool, uint16) {
+	for _, l := range [2][]uint16{a.dirty, b.dirty} {
+		for _, x := range l {
+			if a.Peek(x) != b.Peek(x) {
+				return false, x
+			}
+		}
+	}
+	return true, 0
+}
+
 // EqualFull compares the complete 64 KiB image.
 func EqualFull(a, b *Rec) (bool, uint16) {
 	for i := 0; i < 65536; i++ {
